@@ -8,7 +8,7 @@ import (
 )
 
 func newG(v *sym.V, cls sym.Class) *gen.G {
-	return &gen.G{V: v, Cls: cls, Min: 1, Max: v.Param("maxlen", 2), Budget: v.Param("nsym", 2)}
+	return &gen.G{V: v, Cls: cls, ClsSafe: cls, ClsUnsafe: cls, Min: 1, Max: v.Param("maxlen", 2), Budget: v.Param("nsym", 2)}
 }
 
 func kindAt(b *gen.B, i int) string {
